@@ -5,6 +5,7 @@ harness' histories and compares with the real datastores and commands.
 Assertions are opaque here: the hex of their deterministic protobuf encoding.
 -/
 import OpenFGAVerif.Driver.Proto
+import OpenFGAVerif.Driver.SfCase
 import OpenFGAVerif.Model.Assertions
 import OpenFGAVerif.Gen.Assertions
 
@@ -94,6 +95,7 @@ open C31D
 
 def step (c impl : String) : String :=
   match fields c with
+  | "sf" :: _ => OpenFGAVerif.SfCase.step c impl
   | ["api", sH, mH] =>
     match unhexStr sH, unhexStr mH with
     | some s, some m =>
